@@ -1,6 +1,6 @@
 """What each property's check explores.  One function per property; see DESIGN.md section 5."""
 import props
-from props import prop, tier_n, family_random, family_enumerated, FAMILY_MODULE
+from props import prop, tier_n, family_random, family_enumerated, FAMILY_MODULE, CANARY
 
 FAMILY_MODULE.update({
     "relate": "Trace_Relate",
@@ -45,3 +45,57 @@ def c01(run):
                              "members (N in 3..6), every ordered type pair, 4 binary ops + UnaryUnion + UnionMany, similarity and "
                              "general-position images; non-trivial = both operands and the result non-empty; distinct by case hash"}
     family_random(run, "overlay", "Trace_Overlay", tier_n(run, 6000, 300000))
+
+FAMILY_MODULE["dist"] = "Trace_Dist"
+
+
+@prop("C09")
+def c09(run):
+    run.assumptions += [
+        "exact decision on lattices N<=8 and their exact-similarity / general-position images",
+        "distance accuracy is decided to 2^-7 of the lattice unit, not to ulps",
+    ]
+    run.extra_cov = {"rule": "random valid lattice geometry pairs of all 7 types (N in 3..8) incl. collections, empty members, "
+                             "30-60 segment lines (deep R-tree), similarity and general-position images; triples for the triangle "
+                             "law; non-trivial = both operands non-empty; distinct by case hash"}
+    family_random(run, "dist", "Trace_Dist", tier_n(run, 6000, 300000))
+
+
+# ---------------------------------------------------------------------------------------------
+# canaries: how to corrupt one recorded field of an accepted event so that the spec must reject it
+# ---------------------------------------------------------------------------------------------
+def _flip_char(m, i):
+    return m[:i] + ("0" if m[i] == "F" else "F") + m[i + 1:]
+
+
+def _canary_relate(e):
+    if e.get("err") or e.get("panic") or len(e["ab"]) != 9:
+        return None
+    e["ab"] = _flip_char(e["ab"], 4)
+    return e
+
+
+def _canary_valid(e):
+    if e["kind"] != "geom":
+        return None
+    e["valid"] = not e["valid"]
+    return e
+
+
+def _canary_overlay(e):
+    if e.get("err") or e.get("panic") or not e["res"]["areas"]:
+        return None
+    # drop the first polygon of the result
+    e["res"]["areas"] = e["res"]["areas"][1:]
+    e["rtype"] = "GeometryCollection"
+    return e
+
+
+def _canary_dist(e):
+    if e["kind"] != "pair" or not e["a"] or not e["b"]:
+        return None
+    e["inter"] = not e["inter"]
+    return e
+
+
+CANARY.update({"relate": _canary_relate, "valid": _canary_valid, "overlay": _canary_overlay, "dist": _canary_dist})
